@@ -42,11 +42,11 @@ type SentTx struct {
 }
 
 type RelState struct {
-	ByAddr     map[string]*RelMember
-	Truth      map[string]*VoteTruth // by tx hash
-	Labels     map[string]*SentTx
-	Sent       []*SentTx
-	NextMember int
+	ByAddr        map[string]*RelMember
+	Truth         map[string]*VoteTruth // by tx hash
+	Labels        map[string]*SentTx
+	Sent          []*SentTx
+	NextMember    int
 	AcceptedVotes map[string]int64 // vote signature hex -> height accepted (C02)
 	RegTruth      map[string]*regTruth
 }
@@ -149,21 +149,21 @@ func setProposer(msg sdk.Msg, p string) {
 
 // VoteOpt steers how a vote is produced; the zero value is the honest procedure.
 type VoteOpt struct {
-	Variant    string `json:"variant,omitempty"`
-	Signers    []int  `json:"signers,omitempty"`     // member indices that sign (nil: proposer + as many voters as the quorum needs)
-	Bits       []int  `json:"bits,omitempty"`        // bit positions (nil: the positions of the signing voters)
-	BitmapLen  int    `json:"bitmap_len,omitempty"`  // bytes (0: minimal multiple of 8)
-	Chain      string `json:"chain,omitempty"`       // context overrides for what the signers sign
-	EpochDelta int64  `json:"epoch_delta,omitempty"`
-	SeqDelta   int64  `json:"seq_delta,omitempty"`
-	Method     string `json:"method,omitempty"`
-	AltPayload bool   `json:"alt_payload,omitempty"` // signers sign another payload of the same action
-	ExtraVoters int   `json:"extra_voters,omitempty"`
-	DropSigner  int   `json:"drop_signer,omitempty"` // 1-based index into the signer list to leave out of the aggregate
-	DupSigner   bool  `json:"dup_signer,omitempty"`
-	Outsider    bool  `json:"outsider,omitempty"` // one signature comes from a key that is not a current member
-	VoteSeqDelta int64 `json:"vote_seq_delta,omitempty"` // what the Votes struct claims (separately from what was signed)
-	VoteEpochDelta int64 `json:"vote_epoch_delta,omitempty"`
+	Variant        string `json:"variant,omitempty"`
+	Signers        []int  `json:"signers,omitempty"`    // member indices that sign (nil: proposer + as many voters as the quorum needs)
+	Bits           []int  `json:"bits,omitempty"`       // bit positions (nil: the positions of the signing voters)
+	BitmapLen      int    `json:"bitmap_len,omitempty"` // bytes (0: minimal multiple of 8)
+	Chain          string `json:"chain,omitempty"`      // context overrides for what the signers sign
+	EpochDelta     int64  `json:"epoch_delta,omitempty"`
+	SeqDelta       int64  `json:"seq_delta,omitempty"`
+	Method         string `json:"method,omitempty"`
+	AltPayload     bool   `json:"alt_payload,omitempty"` // signers sign another payload of the same action
+	ExtraVoters    int    `json:"extra_voters,omitempty"`
+	DropSigner     int    `json:"drop_signer,omitempty"` // 1-based index into the signer list to leave out of the aggregate
+	DupSigner      bool   `json:"dup_signer,omitempty"`
+	Outsider       bool   `json:"outsider,omitempty"`       // one signature comes from a key that is not a current member
+	VoteSeqDelta   int64  `json:"vote_seq_delta,omitempty"` // what the Votes struct claims (separately from what was signed)
+	VoteEpochDelta int64  `json:"vote_epoch_delta,omitempty"`
 }
 
 type chainView struct {
